@@ -140,6 +140,31 @@ func (p c06) Gen(r *simhook.Rand, tier string, idx int) harness.Scenario {
 		}
 		ts.Conns = append(ts.Conns, c)
 	}
+	if nb >= 2 && r.Chance(1, 8) {
+		// class "health-tiers": main and backup members, health checking; every main member fails its probes for a while
+		// (the backups serve), then main members recover.  A connection that arrives well after a main member has
+		// been answering its probes again must not be relayed to a backup.
+		ts.Class = "e2e-health-tiers"
+		ts.SlackMs = []int{0, 20, 100}[r.Intn(3)]
+		ts.Env.BackupFrom = 1 + r.Intn(nb-1)
+		ts.Env.InitHosts = nil
+		ts.Faults = nil
+		fall, rise := 1+r.Intn(2), 1+r.Intn(2)
+		ts.Env.HC = &world.HCCfg{IntervalMs: 1000, TimeoutMs: 200, Fall: fall, Rise: rise}
+		down := 300 + r.Intn(1500)
+		up := down + (fall+3+r.Intn(4))*1000
+		for m := 0; m < ts.Env.BackupFrom; m++ {
+			ts.Faults = append(ts.Faults, TCPFault{Kind: "probe-fail", Node: m, AtMs: down + r.Intn(300)})
+			if m == 0 || r.Chance(1, 2) {
+				ts.Faults = append(ts.Faults, TCPFault{Kind: "probe-ok", Node: m, AtMs: up + r.Intn(2000)})
+			}
+		}
+		for i := range ts.Conns {
+			ts.Conns[i].After = 0
+			ts.Conns[i].AfterMs = r.Intn(up + 14000)
+		}
+		return &C06Scenario{Kind: "e2e", T: ts}
+	}
 	if r.Chance(1, 3) {
 		// class "health": an advanced-TCP health checker probes the backends; one backend fails its probes for a
 		// while and recovers, and is removed from the service at the moment the monitor is about to mark it
@@ -522,6 +547,27 @@ func (p c06) runE2E(t *testing.T, sc *C06Scenario) harness.Outcome {
 					return &simrt.Violation{Clause: "relayed-to-healthy-host", Detail: fmt.Sprintf("connection %s was relayed to backend %d whose health probes had been failing for %v (fall threshold %d, interval %dms) while other members were available", cl.name, bi, cl.connectedAt.Sub(win[0]), ts.Env.HC.Fall, ts.Env.HC.IntervalMs)}
 				}
 			}
+		}
+		if ts.Class == "e2e-health-tiers" && ts.Env.HC != nil && bi >= ts.Env.BackupFrom {
+			// a backup served this connection: admitted unless some main member had been answering its probes for far
+			// longer than the rise threshold needs (every timer of the monitor may be late by the run's slack)
+			needUp := time.Duration((ts.Env.HC.Rise+3)*(ts.Env.HC.IntervalMs+ts.SlackMs)+ts.Env.HC.TimeoutMs+ts.SlackMs) * time.Millisecond
+			for m := 0; m < ts.Env.BackupFrom; m++ {
+				windows := append([][2]time.Time(nil), w.probeDownPast[m]...)
+				if since, down := w.probeDownSince[m]; down {
+					windows = append(windows, [2]time.Time{since, time.Now().Add(time.Hour)})
+				}
+				longUp := true
+				for _, win := range windows {
+					if win[0].Before(cl.connectedAt) && win[1].After(cl.connectedAt.Add(-needUp)) {
+						longUp = false
+					}
+				}
+				if longUp {
+					return &simrt.Violation{Clause: "relayed-to-preferred-tier", Detail: fmt.Sprintf("connection %s was relayed to backup member %d although main member %d had been answering its health probes for more than %v (rise threshold %d, interval %dms)", cl.name, bi, m, needUp, ts.Env.HC.Rise, ts.Env.HC.IntervalMs)}
+				}
+			}
+			ok = true
 		}
 		if !ok {
 			return &simrt.Violation{Clause: "relayed-to-usable-host", Detail: fmt.Sprintf("connection %s (arrived at step %d) was relayed to backend %d (accepted at step %d), which was not a usable member (current endpoint set, preferred tier) at any step of that window; membership history: %v, backups from index %d", cl.name, from, bi, to, w.memberHistory, ts.Env.BackupFrom)}
